@@ -1,5 +1,6 @@
 import RxVerif.Machine.Case
 import RxVerif.Oracle
+import RxVerif.Spec.Eval
 open Rx
 
 partial def sexpMentions (a : String) : Sexp → Bool
@@ -41,9 +42,18 @@ partial def loopOracle (h out : IO.FS.Stream) : IO Unit := do
   out.putStrLn (oracleLine c.trimAscii.toString o.trimAscii.toString)
   loopOracle h out
 
+partial def loopSpec (h out : IO.FS.Stream) : IO Unit := do
+  let line ← h.getLine
+  if line.isEmpty then return ()
+  let l := line.trimAscii.toString
+  if l.isEmpty then loopSpec h out else
+  out.putStrLn (Spec.specLine l)
+  loopSpec h out
+
 def main (args : List String) : IO Unit := do
   let stdin ← IO.getStdin
   let stdout ← IO.getStdout
   match args with
   | ["oracle"] => loopOracle stdin stdout
+  | ["spec"] => loopSpec stdin stdout
   | _ => loopRun stdin stdout
